@@ -30,7 +30,7 @@ const (
 func init() {
 	register(Property{ID: "C17", Level: "other", Run: runC17,
 		Technique: "static analysis: SSA path conditions (must-pass / must-precede / must-follow), whole-module who-calls tables, sibling agreement of AddReader/RemoveReader, lock-state dataflow with caller summaries (guarded-by)",
-		Text: "Decides on all paths: (1) Reader.push pushes the callback exactly once, tests the ring buffer's result and counts a discard exactly on the false branch; no other module code pushes to a ring buffer or increments the discard counter; (2) writeUnitInner's fan-out is a single synchronous push per entry of streamFormat.onDatas, on the reader that is the map key, of a closure that invokes exactly the callback that is the map value with the unit being written, and every successful return passes the fan-out; (3) AddReader registers under (media, format) exactly the callback r.onDatas holds for that pair and RemoveReader deletes the same map entries, deletes the reader and then calls stop on every path; stop closes the buffer and waits for the run goroutine, which is the only invoker of pulled callbacks (synchronously, in pull order); start/run/runInner/stop/push have the frozen caller sets; (4) WriteUnit forwards only while the sub stream is the stream's current one and publisher formats are paired with stream formats by position; (5) streamFormat.onDatas and Stream.readers are accessed only with Stream.mutex held (write lock for mutation), Stream.subStream is written only under the write lock. Not decided: FIFO behaviour of the ring buffer library, at-most-once under interleavings beyond the lock discipline, unit immutability after remuxing.",
+		Text: "Decides on all paths: (1) Reader.push pushes the callback exactly once, tests the ring buffer's result and counts a discard exactly on the false branch; no other module code pushes to a ring buffer or increments the discard counter; (2) writeUnitInner's fan-out is a single synchronous push per entry of streamFormat.onDatas, on the reader that is the map key, of a closure that invokes exactly the callback that is the map value with the unit being written, and every successful return passes the fan-out; (3) AddReader registers under (media, format) exactly the callback r.onDatas holds for that pair and RemoveReader deletes the same map entries, deletes the reader and then calls stop on every path; stop closes the buffer and waits for the run goroutine, which is the only invoker of pulled callbacks (synchronously, in pull order); start/run/runInner/stop/push have the frozen caller sets; (4) WriteUnit forwards only while the sub stream is the stream's current one and publisher formats are paired with stream formats by position; (5) streamFormat.onDatas and Stream.readers are accessed only with Stream.mutex held (write lock for mutation), Stream.subStream is written only under the write lock. (6) 'unmodified after remuxing': the one *unit.Unit that writeUnitInner hands to every reader is not written through by any reader callback - every module function outside internal/stream with a *unit.Unit parameter performs no store / copy / clear / in-place library call / module-callee write on memory reachable from it (unit fields, payload bytes, RTP packets; value-flow closure through locals, captured variables, type assertions, slicing, module helpers to depth 4) - and internal/stream itself does not write through the unit after the fan-out. Not decided: FIFO behaviour of the ring buffer library, at-most-once under interleavings beyond the lock discipline, mutation of a payload by third-party encoders/muxers it is passed to or through aliases stored in freshly built containers.",
 		Note: "trusted: gortsplib ringbuffer (FIFO, Push reports false only when full or closed, Pull reports false after Close), sync.RWMutex; no alias analysis: one Stream per streamFormat tree is assumed"})
 	addMutants(
 		Mutant{"C17", "drop-not-counted", "internal/stream/reader.go",
@@ -56,6 +56,13 @@ func init() {
 			"		origFormat := ssm.streamMedia.origMedia.Formats[i]", "		origFormat := ssm.streamMedia.origMedia.Formats[len(ssm.inMedia.Formats)-1-i]", "C17.pairing"},
 		Mutant{"C17", "early-success-return", "internal/stream/sub_stream_format.go",
 			"	size := unitSize(u)\n	ssf.streamFormat.inboundBytes.Add(size)", "	size := unitSize(u)\n	if size == 0 {\n		return nil\n	}\n	ssf.streamFormat.inboundBytes.Add(size)", "C17.fanout"},
+		Mutant{"C17", "lpcm-swapped-in-place", "internal/protocols/moq/from_stream.go",
+			"swapped := make([]byte, len(src))", "swapped := src", "C17.unmodified.readers"},
+		Mutant{"C17", "webrtc-opus-edits-shared-packet", "internal/protocols/webrtc/from_stream.go",
+			"					pkt := &rtp.Packet{\n						Header:  orig.Header,\n						Payload: orig.Payload,\n					}\n\n					pkt.Timestamp = pts\n\n					ntp := u.NTP.Add(timestampToDuration(int64(pkt.Timestamp-baseTimestamp), 48000))",
+			"					pkt := orig\n\n					pkt.Timestamp = pts\n\n					ntp := u.NTP.Add(timestampToDuration(int64(pkt.Timestamp-baseTimestamp), 48000))", "C17.unmodified.readers"},
+		Mutant{"C17", "unit-cleared-after-fanout", "internal/stream/sub_stream_format.go",
+			"			return cOnData(u)\n		})\n	}\n\n	return nil\n}", "			return cOnData(u)\n		})\n	}\n\n	u.RTPPackets = nil\n\n	return nil\n}", "C17.unmodified.after_fanout"},
 		Mutant{"C17", "async-callback", "internal/stream/reader.go",
 			"		err := cb.(func() error)()\n		if err != nil {\n			return err\n		}", "		go cb.(func() error)() //nolint", "C17.reader.run"},
 	)
@@ -72,7 +79,7 @@ func runC17(c *Ctx) {
 		"C17.reader.*: run/runInner/stop termination protocol; C17.callers: frozen who-calls tables. " +
 		"C17.current_publisher, C17.pairing.*: WriteUnit guard and position-wise pairing of in/orig formats and medias. " +
 		"C17.guarded_by: lock-state dataflow (Stream.mutex) at every access of streamFormat.onDatas, Stream.readers and every write of Stream.subStream, entry states summarised from static callers (depth 5). " +
-		"NOT decided: ring buffer FIFO/at-most-once, interleavings beyond the lock discipline, that remuxers do not mutate a unit after fan-out."
+		"C17.unmodified.readers: value-flow (alias) closure from the *unit.Unit parameter of every reader-side function, no write through it; C17.unmodified.after_fanout: no write through the unit after push/writeUnitInner/writeUnit in internal/stream. NOT decided: ring buffer FIFO/at-most-once, interleavings beyond the lock discipline, third-party code mutating a payload it is handed."
 	c.Assume = []string{
 		"ringbuffer.RingBuffer is FIFO; Push returns false only when the buffer is full or closed; Pull returns false after Close",
 		"each streamFormat belongs to exactly one Stream (the mutex of the owning Stream is the one held by callers)",
@@ -529,4 +536,7 @@ func runC17(c *Ctx) {
 		}
 	}
 	c.Floor("C17.guarded_by:subStream", n, 2)
+
+	// ---- (6) units are not modified by readers / after the fan-out
+	c17Unmodified(c, p)
 }
